@@ -15,7 +15,7 @@ EXPLANATION = (
     "the model's emit (exact node order, edge multiset, delay flags, arities, predicted verdict), and engine Partition's executable model of the partitioner (partition_verdict) is run on the model-emitted graph and must agree with the real verdict; generated code of "
     "every accepted flow is compiled by rustc into the harness and driven on random tick scripts. Not a proof of: the "
     "Rust type system (no typing judgement), rustc accepting generated code (sampled); the out-degree of cycle `identity` operators is the number of uses of the cycle variable (1 by Rust ownership, checked per corpus flow). "
-    "Random well-typed program generation is not done: the corpus is fixed (hand-written typed flows).")
+    "Random well-typed programs are limited to seeded pipelines of 13 typed stages (rebuilt when the seed changes).")
 
 
 class C41(vlib.Spec):
@@ -35,7 +35,9 @@ class C41(vlib.Spec):
                    "the partitioner itself is engine Partition's subject (C19)",
                    "the typed API is represented only by the corpus (every flow is type-checked by rustc when the harness builds)",
                    "closures, lifetimes and element types are not modelled (operator names, ports, edges only)"]
-    rule = ("one 'dump' case per corpus flow of harness/h_hydro_b_flows (IR + emitted flat graph + partition verdict), "
+    rule = ("one 'dump' case per corpus flow of harness/h_hydro_b_flows -- hand-written typed flows, two-process network "
+            "flows, and 8 random compositions (2-5 stages, fresh or shared ticks) of 13 typed stages regenerated from "
+            "VERIF_SEED -- (IR + emitted flat graph per location + partition verdict), "
             "non-trivial = the IR has a tee, a cycle or a tick-level node; plus 'drive' cases (random tick scripts over "
             "the generated production code of each accepted flow), non-trivial = some output item produced")
     case_timeout = 600
@@ -48,7 +50,8 @@ class C41(vlib.Spec):
         flows = vlib.run_harness(self.ctx, self.bin, [{"k": "flows"}], name="flows")[0]
         names = [f for f in flows.get("flows", []) if f.startswith("c41_")]
         compiled = set(flows.get("compiled", []))
-        cases = [{"k": "dump", "flow": f} for f in names]
+        cases = [{"k": "dump", "flow": f, "gen_seed": self.gen_seed} if f.startswith("c41_gen_")
+                 else {"k": "dump", "flow": f} for f in names]
         reps = 3 if tier == "quick" else 40
         for f in names:
             if f in compiled and f in self.table:
@@ -96,7 +99,8 @@ class C41(vlib.Spec):
 
     def describe(self, case, res):
         if case.get("k") == "dump":
-            return {"case": case, "features": (self.info.get(case["flow"]) or {}).get("features"),
+            return {"case": case, "stages": getattr(self, "gen_descr", {}).get(case["flow"]),
+                    "features": (self.info.get(case["flow"]) or {}).get("features"),
                     "impl": {"locations": [{k: v for k, v in l.items() if k != "flat_elim"} for l in res.get("locations", [])],
                              "codegen": res.get("codegen"), "emit_panic": res.get("emit_panic")}}
         return {"case": case, "impl": res}
@@ -123,8 +127,18 @@ class C41(vlib.Spec):
 
 
 def main(ctx):
+    # seeded compositions of typed stages: regenerate the generated flows from the seed (or from
+    # the replay file's seed) before the harness is built
+    gen_seed = ctx.seed
+    if ctx.replay:
+        import json
+        gen_seed = json.load(open(ctx.replay)).get("gen_seed", ctx.seed)
+    descr, changed = hydrob.write_compositions(gen_seed)
+    ctx.log("generated compositions for seed %d%s" % (gen_seed, " (rewritten)" if changed else ""))
     spec = C41()
     spec.ctx = ctx
+    spec.gen_descr = descr
+    spec.gen_seed = gen_seed
     # the operator table is regenerated from /repo before the Coq build
     ok, bindir, blog = vlib.cargo_build(spec.crate, spec.group)
     if ok:
